@@ -35,7 +35,7 @@ from octave_mcp.core.ast_nodes import (
 from octave_mcp.core.emitter import emit
 from octave_mcp.core.gbnf_compiler import GBNFCompiler
 from octave_mcp.core.hydrator import resolve_hermetic_standard
-from octave_mcp.core.lexer import LexerError, tokenize
+from octave_mcp.core.lexer import FENCE_PATTERN, LexerError, tokenize
 from octave_mcp.core.parser import Parser, ParserError, _strip_yaml_frontmatter, parse, parse_with_warnings
 from octave_mcp.core.repair import repair
 from octave_mcp.core.repair_log import LiteralZoneRepairLog
@@ -219,13 +219,16 @@ class WriteTool(BaseTool):
             offset += len(line) + 1  # +1 for the newline separator
             if line_start < body_start:
                 continue
-            stripped = line.strip()
-            if stripped.startswith("```"):
+            # FENCE_PATTERN is the lexer's definition of a fence line (spaces, backticks, info tag):
+            # a line such as "\x85```" is zone content, not a fence (str.strip() would strip U+0085).
+            fence_match = FENCE_PATTERN.match(line)
+            if fence_match:
+                backticks = fence_match.group(3)
                 if not in_fence:
                     in_fence = True
-                    fence_marker = stripped[: len(stripped) - len(stripped.lstrip("`"))]
+                    fence_marker = backticks
                     fence_start = line_start
-                elif stripped == fence_marker:
+                elif backticks == fence_marker and not (fence_match.group(4) or "").strip():
                     in_fence = False
                     fence_end = line_start + len(line)
                     protected.append((fence_start, fence_end))
